@@ -201,6 +201,21 @@ V("v_pixels_per_tile", "tilemap", "TileSize::pixels_per_tile == w*h without u32 
 V("v_write_tilemap_cel", "tilemap", "write_tilemap_cel_to_image under R-pre (tiles.len()==w*h, every tile inside the tileset pixels, canvas <= 65535^2): every index in bounds, no i32/i64/usize overflow for ANY 16-bit map and tile size and offset, get/put_pixel in range, canvas size unchanged",
   ["file::write_tilemap_cel_to_image", "tileset::Tileset::tile_size"], fn="write_tilemap_cel_to_image", witness="x_usable_after_load")
 
+V("v_is_visible", "visible", "Layer::is_visible == own visible flag && the flags of ALL ancestors (spec_visible), for every layer table satisfying the parent contract; terminates because a parent id is smaller than its child's",
+  ["layer::Layer::is_visible"], fn="is_visible", witness="x_forest_exhaustive")
+V("v_tilemap_lookup", "tilemap_lookup", "Tilemap::tile(x,y) for ALL u32 coordinates: the stored tile at (x - offset_x, y - offset_y) if that lies inside the stored area, otherwise a tile with id 0; no overflow",
+  ["tilemap::Tilemap::tile"], fn="tile", witness="x_tilemap_views")
+V("v_tile_offsets", "tilemap_lookup", "Tilemap::tile_offsets == cel offset / tile size (truncating), no division by zero given tile size >= 1",
+  ["tilemap::Tilemap::tile_offsets", "tilemap::Tilemap::tileset"], fn="tile_offsets", witness="x_tilemap_views")
+V("v_cel_mut", "userdata", "CelsData::cel_mut returns exactly the stored cel of (frame, layer) (None if absent) and changing it changes that cel only", ["cel::CelsData::cel_mut"], fn="cel_mut")
+for _f, _c in (("add_layer", "pushes the layer, context = that layer's index, nothing else changes"), ("add_slice", "pushes the slice, context = that slice's index, nothing else changes"),
+               ("add_tags", "replaces the tags, context = tag 0, nothing else changes"), ("add_cel", "stores the cel, context = that (frame, layer) on success, unchanged on failure"),
+               ("set_tag_user_data", "Ok iff tag index in range: that tag gets the record, all other tags unchanged, context advances to the next tag; Err leaves everything unchanged; no panic for any index"),
+               ("add_user_data", "the C10 attachment rule: the record goes to the entity named by the current context (layer / cel / slice / sprite / next tag) and NOTHING else changes; Err iff no context or the entity does not exist")):
+    V("v_ud_" + _f, "userdata", "ParseInfo::%s: %s" % (_f, _c), ["parse::ParseInfo::" + _f], fn=_f, witness="x_userdata_exhaustive")
+V("v_tag_set_user_data", "userdata", "Tag::set_user_data stores the record", ["tags::Tag::set_user_data"], fn="set_user_data")
+UD_V = ["v_cel_mut", "v_tag_set_user_data"] + ["v_ud_" + f for f in ("add_layer", "add_slice", "add_tags", "add_cel", "set_tag_user_data", "add_user_data")]
+
 BLEND_LEAVES = ["k_mul_un8", "k_div_un8", "k_blend8"] + ["k_ch_" + m for m in ["multiply", "screen", "overlay", "darken", "lighten", "color_dodge",
                 "color_burn", "hard_light", "difference", "exclusion", "divide"]] + ["k_ch_soft_light_range", "k_merge", "k_normal_alpha",
                 "k_normal_r", "k_normal_g", "k_normal_b", "k_normal_full", "k_pack_i32", "k_pack_f64"]
@@ -238,25 +253,25 @@ def prop(id, level, obls, explanation, **kw):
 prop("C01", "proof", ["k_parse_chunk_type", "k_parse_pixel_format", "k_check_chunk_bytes", "k_pixel_format_accessors"] + READER + LAYER_DEC + TAGS_DEC + SLICE_DEC
      + ["k_palette_chunk_20", "k_palette_chunk_26", "k_palette_chunk_35"] + EXT_DEC + TS_DEC + ["x_decoder_contracts", "x_roundtrip_structure", "x_header_extremes"],
      "Leaf decoders are under contract (enum decoders proved over their whole domain; chunk decoders field-by-field against the file-format layout on fixed payload sizes with symbolic contents). The composition (header, frame dispatch, accessors) cannot be executed symbolically by Kani nor extracted for Verus and is a bounded stand-in (x_*).")
-prop("C02", "proof", ["v_write_raw_cel", "v_write_tilemap_cel", "v_tile_slice", "v_tilemap_tile", "k_mul_un8", "k_cels_table", "x_mode_table", "x_frames_vs_spec", "x_cel_order_irrelevant", "x_blend_public_api"],
+prop("C02", "proof", ["v_write_raw_cel", "v_write_tilemap_cel", "v_tile_slice", "v_tilemap_tile", "v_is_visible", "k_mul_un8", "k_cels_table", "x_mode_table", "x_frames_vs_spec", "x_cel_order_irrelevant", "x_blend_public_api"],
      "The raw-cel rasteriser is proved FUNCTIONALLY correct by Verus for unbounded sizes (placement, clipping, row-major index, opacity product, blend call). mul_un8 == round8 and the cel table's storage-order independence are Kani contracts. frame_image / write_cel / is_visible glue and the dispatch table (Kani ICE, no dyn in Verus) are bounded stand-ins.")
 prop("C03", "proof", BLEND_LEAVES + BLEND_WRAPPERS + ["k_parse_blend_mode", "x_mode_table", "x_soft_light", "x_hsl_kernels", "x_blend_public_api"],
      "14 integer modes: leaves == Aseprite macros over their full domains, normal/merge == reference over all 2^72 inputs, every mode function == RGBA_BLENDER_N structure modulo callees (uninterpreted-function abstraction). soft light and the four HSL modes: integer skeleton proved, f64 kernels bounded-exec (soft light exhaustive over 65536 pairs).")
 prop("C04", "proof", ["v_compute_parents", "v_from_vec", "k_check_chunk_bytes", "k_scale_6bit", "k_parse_chunk_type", "k_parse_pixel_format"] + LAYER_DEC + TAGS_DEC + SLICE_DEC + PAL_DEC + EXT_DEC
-     + TS_DEC + CEL_DEC + UD_DEC + CP_DEC + READER + ["k_tilemap_bits", "k_tile_parse", "k_cels_table", "x_decoder_contracts", "x_total_load"],
+     + TS_DEC + CEL_DEC + UD_DEC + CP_DEC + READER + ["k_tilemap_bits", "k_tile_parse", "k_cels_table", "v_ud_set_tag_user_data", "v_ud_add_user_data", "v_ud_add_cel", "v_cel_mut", "x_decoder_contracts", "x_total_load"],
      "Totality contracts: every Kani decoder harness also discharges the automatic no-panic / no-overflow / in-bounds checks for all contents of its payload size; Verus proves compute_parents and that from_vec establishes its precondition. Whole-load totality (glue, zlib, stack depth, allocation) is fault enumeration in an isolated child process.", level_note_extra="fault enumeration for the composition")
-prop("C05", "proof", ["v_write_raw_cel", "v_write_tilemap_cel", "v_tile_slice", "v_tilemap_tile", "v_pixels_per_tile", "k_validate_indexed", "k_indexed_as_rgba", "k_tileset_head_34", "k_tileset_head_44", "x_usable_after_load"],
+prop("C05", "proof", ["v_write_raw_cel", "v_write_tilemap_cel", "v_tile_slice", "v_tilemap_tile", "v_tilemap_lookup", "v_tile_offsets", "v_is_visible", "v_pixels_per_tile", "k_validate_indexed", "k_indexed_as_rgba", "k_tileset_head_34", "k_tileset_head_44", "x_usable_after_load"],
      "Assume/guarantee: the renderers are proved panic-free under explicit preconditions R-pre (Verus, unbounded); that validation establishes R-pre for everything that loads is checked by fault enumeration: every loadable corrupted file is driven through every accessor.")
 prop("C06", "proof", PIX + ["k_cel_chunk_15", "k_cel_chunk_17", "k_cel_chunk_18", "k_cel_raw_rgba_28", "k_cel_raw_gray_24", "k_cel_raw_indexed_23", "v_write_raw_cel", "x_frames_vs_spec", "x_roundtrip_structure", "x_neutral_encodings"],
      "Pixel conversions proved for all values; cel header / raw payload decode on fixed sizes; placement + alpha scaling is the Verus rasteriser contract; zlib storage, linked cels and the transparent-index rule end-to-end are bounded-exec against the composition spec.")
 prop("C07", "exploration", ["k_parse_chunk_type", "k_layer_chunk_24", "k_tileset_head_44", "x_neutral_encodings", "x_cel_order_irrelevant"],
      "Mostly glue and zlib: bounded exploration over seeded models x ~30 encoding choices; contract part: ignorable chunk codes map to the three ignorable kinds (all u16), trailing payload bytes do not change a decoder's result (layer / tileset shapes with slack bytes).")
-prop("C08", "proof", ["k_tile_parse", "k_tile_bitmask_header", "k_tilemap_bits", "k_pixels_per_tile", "v_tilemap_tile", "v_tile_slice", "v_pixels_per_tile", "v_write_tilemap_cel", "x_tilemap_views"],
+prop("C08", "proof", ["k_tile_parse", "k_tile_bitmask_header", "k_tilemap_bits", "k_pixels_per_tile", "v_tilemap_tile", "v_tilemap_lookup", "v_tile_offsets", "v_tile_slice", "v_pixels_per_tile", "v_write_tilemap_cel", "x_tilemap_views"],
      "Tile word decode, tile lookup and tile slicing are contracts over unbounded sizes; the Tilemap / Tileset views need a loaded sprite and are compared with each other and with the model on seeded sprites.")
-prop("C09", "proof", ["v_compute_parents", "v_from_vec", "x_forest_exhaustive"],
-     "compute_parents is proved by Verus on the real text for ALL layer sequences (any length, any depth) whose first level is 0 - the forests of the property are a subset; from_vec establishes that precondition. Layer::parent / is_visible / the compositing gate are exhaustively executed for every forest of up to 6 (quick) / 8 (thorough) layers and every flag assignment.")
-prop("C10", "exploration", UD_DEC + ["x_decoder_contracts", "x_userdata_exhaustive", "x_roundtrip_structure"],
-     "The attachment state machine lives in ParseInfo (HashMaps, Arc, nested Vecs) and parse_frame; neither verifier can execute it. Exhaustive bounded exploration of all admissible chunk sequences up to length 5 / 6 against the rule written as a pure fold; the user-data chunk decoder itself is a Kani contract.")
+prop("C09", "proof", ["v_compute_parents", "v_from_vec", "v_is_visible", "x_forest_exhaustive"],
+     "compute_parents is proved by Verus on the real text for ALL layer sequences (any length, any depth) whose first level is 0 - the forests of the property are a subset; from_vec establishes that precondition; Layer::is_visible is proved equal to 'own flag and all ancestors' flags' for every table satisfying the parent contract. Layer::parent and the compositing gate are exhaustively executed for every forest of up to 6 (quick) / 8 (thorough) layers and every flag assignment.")
+prop("C10", "proof", UD_V + UD_DEC + ["x_decoder_contracts", "x_userdata_exhaustive", "x_roundtrip_structure"],
+     "The attachment rule is a Verus contract on the REAL ParseInfo methods (add_layer / add_cel / add_tags / add_slice / set_tag_user_data / add_user_data and CelsData::cel_mut, extracted each run): a record goes to the entity named by the current context and nothing else changes, for unbounded tables. What remains bounded is the glue in parse_frame that calls these methods per chunk kind (incl. the legacy-palette context and 'tags only in frame 0'): all admissible chunk sequences up to length 5 / 6 are executed against the rule written as a pure fold. The user-data chunk decoder is a Kani contract.")
 prop("C11", "proof", PAL_DEC + ["k_validate_indexed", "x_decoder_contracts", "x_palette_precedence", "x_indexed_needs_palette"],
      "6-bit scaling proved for all u8; palette chunk decoders against the layout on fixed sizes; pixel-index validation on a bounded shape; precedence between chunks and the load failure for incomplete palettes are bounded-exec.")
 prop("C13", "exploration", READER + ["k_check_chunk_bytes", "x_truncation"],
